@@ -138,6 +138,8 @@ def ed_b_ops(w):
         ("G+Q", lambda: aff(w.G + w.Q)),
         ("Q.double()", lambda: aff(w.Q.double())),
         ("G.double()", lambda: aff(w.G.double())),
+        ("Q.scale()", lambda: aff(w.Q.scale())),
+        ("Q.to_bytes()", lambda: bytes(w.Q.to_bytes())),
     ]
     return ops
 
@@ -270,6 +272,10 @@ def run_schedule(cname, params, scenario, point, deep=False, rotate=0):
         a_res = _call(lambda: op_a(w))
     finally:
         sys.settrace(old)
+    if point is not None:
+        # the state both threads leave behind: the same operations once more on the shared objects, after both are done
+        for name, f in b_ops(w):
+            results.append(("after:" + name, _call(f)))
     return counter[0], a_res, results, where[0]
 
 
@@ -297,6 +303,7 @@ def check_point(cname, params, scenario, point, exp, deep=False, rotate=0):
     if a_res != exp_a:
         bad.append(("A:" + scenario, exp_a, a_res, where))
     for name, v in b_res:
-        if v != exp_b[name]:
-            bad.append((name, exp_b[name], v, where))
+        want = exp_b[name[6:] if name.startswith("after:") else name]
+        if v != want:
+            bad.append((name, want, v, where))
     return bad
